@@ -95,7 +95,18 @@ def check_sensors(w, rep):
                 elif vd == DIFFERENT:
                     rep.fail("C12.sensors", inst, "the simulated field's heading differs from the declination the estimator subtracts, the yaw estimate converges to a biased value: %s" % det, where=W("measure_mag"))
                 else:
-                    rep.incomplete("C12.sensors", inst, "cannot decide: %s" % det, where=W("measure_mag"))
+                    # last resort: Taylor coefficients in (decl, incl) at 0 (sa/taylor.py): a differing coefficient proves
+                    # that the expression is not identically zero
+                    from ..taylor import expand
+                    va = [I["mag_decl"].s().single_atom(), I["mag_incl"].s().single_atom()]
+                    tl = expand(hz.s(), va, 5)
+                    nz = {m: c for m, c in (tl or {}).items() if c.t}
+                    if tl is not None and nz:
+                        m0 = min(nz, key=lambda m: (sum(m), m))
+                        rep.fail("C12.sensors", inst, "the simulated field's heading differs from the declination the estimator subtracts: the Taylor coefficient of decl^%d incl^%d of B_y cos d - B_x sin d is %s, not 0 "
+                                 "(the yaw estimate converges to a biased value when both angles are non-zero)" % (m0[0], m0[1], short(nz[m0], 60)), where=W("measure_mag"), fact={"taylor_order": sum(m0)})
+                    else:
+                        rep.incomplete("C12.sensors", inst, "cannot decide: %s" % det, where=W("measure_mag"))
         emod = w.mod(MRP)
         if "correct_mag" not in emod:
             raise AnchorMissing("%s.correct_mag" % MRP)
